@@ -807,13 +807,14 @@ class IterativeSweeps(Sweep):
             self.status_update(iteration_start_time=iteration_start_time)
             is_first_sweep = False
         self.post_run_cleanup()
-        consistency_check(
-            np.max(self.trunc_err_list),
-            self.options,
-            'max_trunc_err',
-            1e-4,
-            'Maximum truncation error (``max_trunc_err``) exceeded.',
-        )
+        if len(getattr(self, 'trunc_err_list', [])) > 0:  # no sweep at all if we hit the time limit right away
+            consistency_check(
+                np.max(self.trunc_err_list),
+                self.options,
+                'max_trunc_err',
+                1e-4,
+                'Maximum truncation error (``max_trunc_err``) exceeded.',
+            )
         return result
 
     def pre_run_initialize(self):
